@@ -37,6 +37,8 @@ pub enum Src {
   /// `from_stream` over a stream that is never ready (a channel whose sender is alive but silent): every poll is
   /// counted and answers Pending, nothing ever wakes the task
   SilentStream,
+  /// `from_stream_result` over a stream of n ready `Ok` items that counts its polls
+  CountingTryStream(usize),
 }
 
 #[derive(Clone, Copy, Debug, PartialEq, Eq, Hash)]
